@@ -168,8 +168,53 @@ struct Meta {
     variant: usize,
 }
 
+// ---- compile-time knowledge of the library's thread-safety promises ----
+//
+// Today `RenderTree: Send` and `Config<D>: Sync` (for `D: Sync`), which is what
+// lets callers hand trees to other threads and share one Config.  A change to
+// the library can silently withdraw either promise (an `Rc` somewhere inside).
+// The simulator must still build then - and must not pretend the promise
+// holds.  So the two facts are detected at compile time, and the wrappers
+// below (which assert Send/Sync to the compiler) are only ever used across
+// threads when the corresponding fact is true; otherwise hand-offs are
+// skipped and every thread builds its own Config.
+trait FallbackFalse {
+    const YES: bool = false;
+}
+struct IsSend<T: ?Sized>(std::marker::PhantomData<T>);
+impl<T: ?Sized + Send> IsSend<T> {
+    #[allow(dead_code)]
+    const YES: bool = true;
+}
+impl<T: ?Sized> FallbackFalse for IsSend<T> {}
+struct IsSync<T: ?Sized>(std::marker::PhantomData<T>);
+impl<T: ?Sized + Sync> IsSync<T> {
+    #[allow(dead_code)]
+    const YES: bool = true;
+}
+impl<T: ?Sized> FallbackFalse for IsSync<T> {}
+
+/// Is `RenderTree` still `Send`?
+pub const TREE_IS_SEND: bool = <IsSend<RenderTree>>::YES;
+/// Is `Config<PlainDecorator>` still `Sync`?
+pub const CONFIG_IS_SYNC: bool = <IsSync<Config<PlainDecorator>>>::YES;
+
+/// A tree in transit between simulated threads.  SAFETY: only constructed
+/// when `TREE_IS_SEND` (checked where trees are sent).
+struct TreeInTransit(RenderTree);
+unsafe impl Send for TreeInTransit {}
+
+/// The shared configurations.  SAFETY: only dereferenced from a thread other
+/// than the one that built them when `CONFIG_IS_SYNC`; otherwise each thread
+/// builds its own.
+struct SharedCfgs<'a, D: SimDeco>(&'a [Option<Config<D>>])
+where
+    D::Annotation: Send;
+unsafe impl<'a, D: SimDeco> Send for SharedCfgs<'a, D> where D::Annotation: Send {}
+unsafe impl<'a, D: SimDeco> Sync for SharedCfgs<'a, D> where D::Annotation: Send {}
+
 pub struct Mailboxes {
-    boxes: Mutex<Vec<VecDeque<(RenderTree, usize, bool, usize)>>>,
+    boxes: Mutex<Vec<VecDeque<(TreeInTransit, usize, bool, usize)>>>,
 }
 
 pub struct ExecOpts {
@@ -208,7 +253,7 @@ fn finish_text(o: Outcome, keep: bool) -> (Outcome, usize) {
     (o, len)
 }
 
-fn install_clock(ctx: &Rc<Ctx>, fuel: u64, preempts: &[u64]) {
+fn install_clock(ctx: &Rc<Ctx>, fuel: u64, preempts: &[u64], site_preempts: &[(u32, u64)], multi: bool) {
     let mut pre: VecDeque<u64> = {
         let mut v = preempts.to_vec();
         v.sort_unstable();
@@ -216,28 +261,71 @@ fn install_clock(ctx: &Rc<Ctx>, fuel: u64, preempts: &[u64]) {
         v.into()
     };
     let ctx2 = ctx.clone();
-    let first = pre.front().copied().unwrap_or(u64::MAX).min(fuel);
+    // In multi-threaded runs the callback runs at every tick, so that a thread
+    // which lost the baton while blocked on a lock of the code under test
+    // parks again within one tick of waking up.
+    let first = if multi { 1 } else { pre.front().copied().unwrap_or(u64::MAX).min(fuel) };
+    // per site: the sorted occurrence counts at which to yield
+    let mut by_site: Vec<VecDeque<u64>> = vec![VecDeque::new(); NUM_SITES];
+    for &(site, n) in site_preempts {
+        if (site as usize) < NUM_SITES && n > 0 {
+            by_site[site as usize].push_back(n);
+        }
+    }
+    for q in by_site.iter_mut() {
+        let mut v: Vec<u64> = q.drain(..).collect();
+        v.sort_unstable();
+        v.dedup();
+        *q = v.into();
+    }
+    let arms: Vec<(usize, u64)> = by_site
+        .iter()
+        .enumerate()
+        .filter_map(|(i, q)| q.front().map(|&n| (i, n)))
+        .collect();
     verif_hooks::install(
         first,
-        Box::new(move |t, _site| {
+        Box::new(move |t, site| {
             if t >= fuel {
                 if std::thread::panicking() {
                     return u64::MAX;
                 }
                 resume_unwind(Box::new(FuelExhausted));
             }
+            if multi && !std::thread::panicking() {
+                ctx2.check_baton();
+            }
             let mut fired = false;
             while pre.front().is_some_and(|&p| p <= t) {
                 pre.pop_front();
                 fired = true;
             }
-            if fired {
+            // was this call made for an armed site occurrence?
+            let si = site as usize;
+            let count = verif_hooks::counts()[si];
+            if by_site[si].front().is_some_and(|&n| n <= count) {
+                while by_site[si].front().is_some_and(|&n| n <= count) {
+                    by_site[si].pop_front();
+                }
+                if let Some(&n) = by_site[si].front() {
+                    verif_hooks::arm_site(si, n);
+                }
+                fired = true;
+            }
+            if fired && !std::thread::panicking() {
                 ctx2.with_stats(|s| s.preempt += 1);
                 ctx2.yield_point(EventKind::Tick);
             }
-            pre.front().copied().unwrap_or(u64::MAX).min(fuel)
+            if multi {
+                t + 1
+            } else {
+                pre.front().copied().unwrap_or(u64::MAX).min(fuel)
+            }
         }),
     );
+    for (i, n) in arms {
+        verif_hooks::arm_site(i, n);
+    }
 }
 
 #[allow(clippy::too_many_arguments)]
@@ -247,7 +335,7 @@ fn run_thread<D: SimDeco>(
     scen: &Scenario,
     docs: &[Vec<u8>],
     specs: &[ConfigSpec],
-    cfgs: &[Option<Config<D>>],
+    shared_cfgs: SharedCfgs<'_, D>,
     shared: Arc<Shared>,
     mail: &Mailboxes,
     opts: &ExecOpts,
@@ -257,7 +345,34 @@ where
 {
     let ctx = Rc::new(Ctx::new(tid, shared));
     ctx.start();
-    install_clock(&ctx, scen.fuel, &tspec.preempt_ticks);
+    // One Config shared by all caller threads - if the library still promises
+    // that a Config can be shared; otherwise every thread gets its own.
+    let own_cfgs: Vec<Option<Config<D>>>;
+    let cfgs: &[Option<Config<D>>] = if CONFIG_IS_SYNC {
+        shared_cfgs.0
+    } else {
+        own_cfgs = specs
+            .iter()
+            .zip(shared_cfgs.0.iter())
+            .map(|(spec, theirs)| {
+                if theirs.is_none() {
+                    return None;
+                }
+                match guarded(|| D::build(spec)) {
+                    Ok(Built::Ok(c)) => Some(c),
+                    _ => None,
+                }
+            })
+            .collect();
+        &own_cfgs
+    };
+    install_clock(
+        &ctx,
+        scen.fuel,
+        &tspec.preempt_ticks,
+        &tspec.preempt_sites,
+        scen.threads.len() > 1,
+    );
 
     let mut doms: HashMap<Slot, (RcDom, Meta)> = HashMap::new();
     let mut trees: HashMap<Slot, (RenderTree, Meta)> = HashMap::new();
@@ -531,11 +646,16 @@ where
                 Some(t) => guarded(move || drop(t)).map(|_| Outcome::Unit),
                 None => Ok(Outcome::Skipped),
             },
+            Op::SendTree { tree, to } if !TREE_IS_SEND => {
+                // the library no longer promises that trees can change threads
+                let _ = (tree, to);
+                Ok(Outcome::Skipped)
+            }
             Op::SendTree { tree, to } => match trees.remove(tree) {
                 Some((t, meta)) => {
                     let mut b = mail.boxes.lock().unwrap();
                     let to = (*to as usize) % b.len();
-                    b[to].push_back((t, meta.limit, meta.free_tree, meta.variant));
+                    b[to].push_back((TreeInTransit(t), meta.limit, meta.free_tree, meta.variant));
                     ctx.with_stats(|s| s.handoffs += 1);
                     ctx.log(EventKind::Handoff, to as u64);
                     Ok(Outcome::Unit)
@@ -555,7 +675,7 @@ where
                     got = mail.boxes.lock().unwrap()[tid].pop_front();
                 }
                 match got {
-                    Some((t, lim, ft, var)) => {
+                    Some((TreeInTransit(t), lim, ft, var)) => {
                         if let Some(old) = trees.insert(
                             *tree,
                             (
@@ -700,7 +820,8 @@ where
     let mail = Mailboxes {
         boxes: Mutex::new((0..n).map(|_| VecDeque::new()).collect()),
     };
-    let (docs_ref, specs_ref, cfgs_ref) = (&docs[..], &specs[..], &cfgs[..]);
+    let (docs_ref, specs_ref) = (&docs[..], &specs[..]);
+    let cfgs_shared = &cfgs[..];
     let outs: Vec<ThreadOut> = std::thread::scope(|s| {
         let mut handles = Vec::new();
         for (tid, tspec) in scen.threads.iter().enumerate() {
@@ -710,7 +831,8 @@ where
                 .name(format!("sim{}", tid))
                 .stack_size(tspec.stack_kib as usize * 1024)
                 .spawn_scoped(s, move || {
-                    run_thread::<D>(tid, tspec, scen, docs_ref, specs_ref, cfgs_ref, shared, mail, opts)
+                    let sc = SharedCfgs(cfgs_shared);
+                    run_thread::<D>(tid, tspec, scen, docs_ref, specs_ref, sc, shared, mail, opts)
                 })
                 .expect("spawn simulated thread");
             handles.push(h);
